@@ -109,6 +109,15 @@ func isDigestPkg(path string) bool {
 var wallClock = map[string]bool{"Now": true, "Since": true, "Until": true, "After": true, "AfterFunc": true, "NewTimer": true,
 	"NewTicker": true, "Tick": true, "Sleep": true}
 
+// methods of time.Time that drop the monotonic clock reading or turn the instant into a wall-clock number
+var wallOnly = map[string]bool{"UTC": true, "Local": true, "In": true, "Round": true, "Truncate": true, "AddDate": true,
+	"Unix": true, "UnixNano": true, "UnixMilli": true, "UnixMicro": true, "Format": true, "MarshalBinary": true, "MarshalJSON": true, "MarshalText": true}
+
+func isTimeTime(t types.Type) bool {
+	k, _ := typeKey(t)
+	return k == "time.Time"
+}
+
 // clockScan lists, for every function of the package, the calls that make its behaviour depend on time: package time's
 // wall-clock functions, anything of the repository's own pkg/clock, and SetDeadline / SetReadDeadline / SetWriteDeadline
 // on any value.  The Gallina models of the listener, the parser and the mapper take no time input; ClockFree.v requires
@@ -159,6 +168,12 @@ func clockScan(pkg *types.Package, info *types.Info, files []*ast.File) {
 					clocks = append(clocks, name+" -> clock."+fn.Name())
 				case strings.HasSuffix(fn.Name(), "Deadline") && fn.Type().(*types.Signature).Recv() != nil:
 					clocks = append(clocks, name+" -> "+fn.Name())
+				case path == "time" && fn.Type().(*types.Signature).Recv() != nil && wallOnly[fn.Name()] && isTimeTime(fn.Type().(*types.Signature).Recv().Type()):
+					// methods of time.Time whose result has lost the monotonic reading (or is a wall-clock number): ages computed
+					// from such values follow steps of the system clock
+					clocks = append(clocks, name+" -> Time."+fn.Name())
+				case path == "time" && fn.Type().(*types.Signature).Recv() == nil && (fn.Name() == "Unix" || fn.Name() == "UnixMilli" || fn.Name() == "UnixMicro" || fn.Name() == "Date" || fn.Name() == "Parse" || fn.Name() == "ParseInLocation"):
+					clocks = append(clocks, name+" -> time."+fn.Name())
 				}
 				return true
 			})
